@@ -327,6 +327,8 @@ def _work(args) -> dict:
                 for kind, tag in (("truncate", 3), ("overwrite", 7), ("owned-pattern", 11)):
                     mach._plant(kind, tag)
                     mach.do_run(a, 1)
+                for key in ("small_a_open", a, "small_a_base", a):   # models that differ only inside shared declarations
+                    mach.do_run(key, 2)
                 mach.do_run(b, 2)
                 for hs in (0, 1, 2, 3, 4, 5):   # hash seeds on the name-inventing model
                     mach.do_run("small_mx", hs)
